@@ -1,4 +1,5 @@
 import ArgoVerif.Proofs.Mutex2
+import ArgoVerif.Gen.Consts
 /-
 Props.C04 — ABT_mutex: mutual exclusion, recursion, trylock, no lost wake-up.
 All theorems quantify over every trace accepted by the mutex model, i.e. over every
@@ -152,5 +153,12 @@ example :
        .call 1 .unlock, .tasW 1 false, .clearLock 1, .deq 1 2, .storeReady 1 2, .clearW 1, .ret 1 .unlock true,
        .tasLock 2 false, .ret 2 .lock true]).map (fun s => (s.pc 1, s.pc 2, s.lockW, s.q))
       = some (.idle, .cs, true, []) := by decide
+
+
+/-! ## widths of the counters modelled as unbounded numbers (generated from the headers on every run) -/
+/-- `nesting_cnt` of a recursive mutex: Model.Mutex counts the depth in Nat, which describes the C code for depths below 2^31 is 4 bytes wide in this tree: the unbounded model agrees with the C field below 2^31 -/
+example : ArgoVerif.Gen.Consts.bytesMutexNestingCnt = 4 := by decide
+/-- the generation word of the wait-list futex is 4 bytes wide in this tree: the unbounded model agrees with the C field below 2^31 -/
+example : ArgoVerif.Gen.Consts.bytesFutexVal = 4 := by decide
 
 end ArgoVerif.Props.C04
